@@ -28,7 +28,9 @@ func checkLiterals(t *fw.T, lits []litCase, label string) {
 		src := "v = " + lc.text
 		var po ParseOut
 		var c, p string
-		ok := t.Guard("parse/compile literal", func() map[string]any { return map[string]any{"literal": lc.text, "literal_quoted": fmt.Sprintf("%q", lc.text)} }, func() {
+		ok := t.Guard("parse/compile literal", func() map[string]any {
+			return map[string]any{"literal": lc.text, "literal_quoted": fmt.Sprintf("%q", lc.text)}
+		}, func() {
 			po = parse(src, Mode{})
 			if po.Err == nil {
 				c = CfgCompact.Compile(po.Prog).Code
